@@ -1133,3 +1133,133 @@ def _reaches(succ, a, b):
         seen.add(x)
         work.extend(succ[x])
     return False
+
+
+def numu(units, R):
+    """Numbers in the utilities' own comparison (compare_json) and in the patch generator (create_patches): two numbers count as
+    equal - `return true`, no "replace" emitted - only behind the true edge of compare_double on their two valuedouble fields.
+    Other conditions (the historic valueint test) may make more numbers count as different, never fewer: valueint is the
+    truncated double, so agreeing valueints say nothing about the fractions."""
+    from .common import region_without_edges
+    u = units['cJSON_Utils.c']
+    n = 0
+    for fname in ('compare_json', 'create_patches'):
+        fn = u.functions.get(fname)
+        if fn is None or fn.body is None:
+            continue
+        cfg = fn.cfg()
+        starts = []
+        for sw in cfg.nodes:
+            if sw.kind != 'switch':
+                continue
+            for (y, l) in cfg.succ[sw.id]:
+                if l is not None and l[0] == 'case' and l[2] == 8:
+                    starts.append(y)
+        if not starts:
+            continue
+
+        def is_cd(e):
+            e = strip_casts(e)
+            if e.get('k') != 'call' or callee_name(e) != 'compare_double' or len(e['args']) != 2:
+                return False
+            flds = [strip_casts(a) for a in e['args']]
+            return all(a.get('k') == 'mem' and a['f'] == 'valuedouble' for a in flds) and \
+                expr_str(strip_casts(flds[0]['b'])) != expr_str(strip_casts(flds[1]['b']))
+
+        def cd_conj(e):
+            e = strip_casts(e)
+            if is_cd(e):
+                return True
+            if e.get('k') == 'bin' and e['op'] == '&&':
+                return cd_conj(e['l']) or cd_conj(e['r'])
+            return False
+        # result flags of an inlined predicate: every non-constant definition is a conjunction with compare_double
+        flagdefs = {}
+        for a_ in assignments(fn):
+            if is_ref(a_['l']) and a_['op'] == '=':
+                flagdefs.setdefault(strip_casts(a_['l'])['d'], []).append(a_['r'])
+        cd_flags = {d_ for d_, rs_ in flagdefs.items()
+                    if any(const_val(r_) is None for r_ in rs_) and all(const_val(r_) is not None or cd_conj(r_) for r_ in rs_)}
+
+        def cd_true_edge(nn, l):
+            if nn.kind != 'branch' or l is None or nn.expr is None:
+                return False
+            e = strip_casts(nn.expr)
+            pol = 'T'
+            while e.get('k') == 'un' and e['op'] == '!':
+                e = strip_casts(e['e'])
+                pol = 'F' if pol == 'T' else 'T'
+            if e.get('k') == 'ref' and e.get('d') in cd_flags:
+                return l[0] == pol
+            if e.get('k') != 'call' or callee_name(e) != 'compare_double' or len(e['args']) != 2:
+                return False
+            flds = [strip_casts(a) for a in e['args']]
+            if not all(a.get('k') == 'mem' and a['f'] == 'valuedouble' for a in flds):
+                return False
+            if expr_str(strip_casts(flds[0]['b'])) == expr_str(strip_casts(flds[1]['b'])):
+                return False
+            return l[0] == pol
+        for start in starts:
+            # the arm: what is reachable from its label without running into the next case label
+            case_nodes = {m.id for m in cfg.nodes if m.kind == 'nop' and m.name in ('case', 'default')}
+            seen = {start}
+            work = [start]
+            while work:
+                x = work.pop()
+                for (y, l) in cfg.succ[x]:
+                    if cd_true_edge(cfg.nodes[x], l) or y in seen:
+                        continue
+                    seen.add(y)
+                    work.append(y)
+            for m in sorted(seen):
+                nd = cfg.nodes[m]
+                if nd.kind != 'return':
+                    continue
+                if fname == 'compare_json':
+                    if nd.expr is None:
+                        continue
+                    v = const_val(nd.expr)
+                    if v == 0:
+                        continue
+                    n += 1
+                    ok = False
+                    if v is None:
+                        # return <expression>: fine when compare_double is a conjunct of it
+                        def conj(e):
+                            e = strip_casts(e)
+                            if e.get('k') == 'call' and callee_name(e) == 'compare_double':
+                                return True
+                            if e.get('k') == 'bin' and e['op'] == '&&':
+                                return conj(e['l']) or conj(e['r'])
+                            return False
+                        ok = conj(nd.expr)
+                    R.ob('NUMU', fn, nd.stmt, 'two numbers compare equal only when compare_double says so', ok,
+                         'the verdict is a conjunction with compare_double' if ok else
+                         'this return is reached from the Number arm without compare_double(a->valuedouble, b->valuedouble) having held: '
+                         'numbers that differ (1.25 / 1.5 under equal valueint) count as equal', key='equal:%d' % (0 if ok else nd.line))
+                else:
+                    # no operation emitted on the way?
+                    emitted = False
+                    back = {m}
+                    # (the arm is small: a return reached without compare_double's true edge must have passed an emission)
+                    reach_no_emit = {start}
+                    w2 = [start]
+                    while w2:
+                        x = w2.pop()
+                        nx = cfg.nodes[x]
+                        if nx.expr is not None and any(c.get('k') == 'call' and callee_name(c) in ('compose_patch',) for c in walk(nx.expr)):
+                            continue
+                        for (y, l) in cfg.succ[x]:
+                            if cd_true_edge(nx, l) or y in reach_no_emit:
+                                continue
+                            reach_no_emit.add(y)
+                            w2.append(y)
+                    n += 1
+                    ok = m not in reach_no_emit
+                    R.ob('NUMU', fn, nd.stmt, 'two numbers produce no patch only when compare_double says they are equal', ok,
+                         '' if ok else 'this return is reached from the Number arm without an operation and without compare_double having held',
+                         key='nopatch:%d' % (0 if ok else nd.line))
+            # returns behind the true edge are fine by construction; count the arm
+            n += 1
+            R.ob('NUMU', fn, None, 'Number arm of %s examined' % fname, True, '', key='arm:%s' % fname)
+    R.floor('NUMU', 'number arms in the utilities', n, 2)
